@@ -752,7 +752,7 @@ func (interp *Interpreter) cfg(root *node, sc *scope, importPath, pkgName string
 						}
 						// Do not overload existing symbols (defined in GTA) in global scope.
 						sym, _, _ = sc.lookup(dest.ident)
-						if !sc.global {
+						if !sc.global && n.kind == defineStmt && dest.ident != "_" {
 							// A variable redeclared in its own scope is assigned, not created: it keeps its type.
 							dest.redeclared = true
 							dest.typ = sym.typ
